@@ -60,15 +60,16 @@ private def optBool (j : Json) (k : String) : Option (Option Bool) :=
   | .error _ => some none
   | _ => none
 
+/-- absent ⇒ `Quirks.current`; `"old"` ⇒ every former defect; object ⇒ individual switches -/
 private def quirksOf (j : Json) : Quirks :=
   match j.getObjVal? "quirks" with
-  | .ok (.str "repaired") => Quirks.repaired
+  | .ok (.str "old") => Quirks.old
   | .ok (.obj _) =>
     let qj := (getObj? j "quirks").getD Json.null
-    let g (k : String) (d : Bool) : Bool := (getBool? qj k).getD d
-    { callsNative := g "calls_native" true, uncheckedDnsCounts := g "unchecked_dns_counts" true,
-      carriesPlaintext := g "carries_plaintext" true, noCertRaises := g "no_cert_raises" true,
-      handshakeOsEscapes := g "handshake_os_escapes" true, handlesAfterClose := g "handles_after_close" true }
+    let g (k : String) : Bool := (getBool? qj k).getD false
+    { callsNative := g "calls_native", uncheckedDnsCounts := g "unchecked_dns_counts",
+      carriesPlaintext := g "carries_plaintext", noCertRaises := g "no_cert_raises",
+      handshakeOsEscapes := g "handshake_os_escapes", handlesAfterClose := g "handles_after_close" }
   | _ => Quirks.current
 
 private def cfgOf? (j : Json) : Option Cfg := do
